@@ -146,6 +146,23 @@ def replay(job):
             if abs(vd[d] - exp[d]) > 1e-12 * scale:
                 viol.append((f"dirichlet-vector/{beh['sys']}", f"Bc_vector_Dirichlet()[{d}] = {vd[d]} but the entered values sum to {exp[d]}", case))
                 break
+        # the stated system is linear in its data (Constraints.tla: Solution is Cramer's rule on B and Xc): the same conditions with every
+        # value multiplied by 1e-11 / 1e9 have the solution multiplied by that factor - whatever the magnitude (direct route)
+        if mode == "scipy" and idx % 4 == 0:
+            for fac in (1e-11, 1e9):
+                try:
+                    with contextlib.redirect_stdout(io.StringIO()), np.errstate(all="ignore"):
+                        sim.Bc_Init()
+                        for op_, nodes_, vals_, unks_, _ in entered:
+                            sc_vals = [(v_ * fac if not callable(v_) else (lambda x, y, z, f_=v_: f_(x, y, z) * fac)) for v_ in vals_]
+                            (sim.add_dirichlet if op_ == "dir" else sim.add_neumann)(nodes_, sc_vals, unks_)
+                        x3 = sim.Solve()
+                    if not np.all(np.isfinite(x3)) or np.abs(x3 - exp * fac).max() / (scale * fac) > tol:
+                        viol.append((f"scaled/{beh['sys']}", f"the same conditions with every value multiplied by {fac:g} give {x3}, the stated system has the solution {exp * fac}", case))
+                        break
+                except Exception as ex:
+                    viol.append((f"scaled-raises/{beh['sys']}", f"the conditions with every value multiplied by {fac:g} raise {type(ex).__name__}: {ex}", case))
+                    break
         n += 1
         keys.append((beh["sys"], mode, len(beh["steps"]), has_dup, tuple(sorted(set(dir_dofs)))))
     return {"viol": viol, "n": n, "keys": keys, "traces": 1}
